@@ -2,7 +2,7 @@
    hand-written model functions.  Definitions only; depends on no proof file, so that it still runs when
    a proof of Gen*.v breaks: the driver then evaluates [sweeps_Cxx] and reports the disagreeing inputs.
    On the unchanged tree every sweep is []. *)
-From Verif Require Import Base Seq ListImpl Coll MiniGo GenSrc GenRep.
+From Verif Require Import Base Sorter Seq ListImpl Coll MiniGo GenSrc GenRep.
 
 Local Open Scope Z_scope.
 
@@ -37,6 +37,15 @@ Fixpoint val_eqb (a b : val Z) : bool :=
        | _, _ => false
        end) l m
   | VMeth r m, VMeth r' m' => val_eqb r r' && Pos.eqb m m'
+  | VTag p v, VTag q w => Nat.eqb p q && val_eqb v w
+  | VWb v l, VWb w m =>
+    val_eqb v w &&
+    (fix go (l m : list (nat * val Z)) : bool :=
+       match l, m with
+       | [], [] => true
+       | (p, x) :: l', (q, y) :: m' => Nat.eqb p q && val_eqb x y && go l' m'
+       | _, _ => false
+       end) l m
   | _, _ => false
   end.
 
@@ -122,7 +131,8 @@ Definition sweeps_C17 : list disagreement :=
   sweep_iterator_GetSize ++ sweep_iterator_IsEmpty ++ sweep_iteratorClass_MakeFromArray.
 
 (* ---------- C01: collection/array.go, collection/list.go ---------- *)
-Definition lists : list (list Z) := map vals sizes.                       (* [], [11], [11;22], .. *)
+Definition lists : list (list Z) := map vals sizes.
+Definition probes0 : list Z := [5; 11; 22; 33; 40; 55].                       (* [], [11], [11;22], .. *)
 Definition srcs : list (list Z) := map (fun n => map (fun x => x + 1000) (vals n)) (upto 6).
 Definition aval (l : list Z) : val Z := arr_val l.
 Definition lval (l : list Z) : val Z := lst_val VNil l.
@@ -189,6 +199,16 @@ Definition sweep_list_AsArray := flat_map (fun l =>
 Definition sweep_list_GetIterator := flat_map (fun l =>
   cmp id_GetIterator (lval l) [] (ORet (irep (it_make l), lval l))) lists.
 
+Definition cx := cmp_ext Z.eqb.
+Definition sweep_list_GetIndex := flat_map (fun l => flat_map (fun x =>
+  cmpx cx id_GetIndex (lval l) [VElem x] (ORet (VInt (Z.of_nat (get_index Z.eqb l x)), lval l))) probes0) (lists ++ [[22; 11; 22]])%list.
+Definition sweep_list_ContainsValue := flat_map (fun l => flat_map (fun x =>
+  cmpx cx id_ContainsValue (lval l) [VElem x] (ORet (VBool (contains_value Z.eqb l x), lval l))) probes0) lists.
+Definition sweep_list_ContainsAny := flat_map (fun l => flat_map (fun src =>
+  cmpx cx id_ContainsAny (lval l) [aval src] (ORet (VBool (contains_any Z.eqb l src), lval l))) [[]; [5]; [5; 22]; [33; 7]; [44; 55]]) lists.
+Definition sweep_list_ContainsAll := flat_map (fun l => flat_map (fun src =>
+  cmpx cx id_ContainsAll (lval l) [aval src] (ORet (VBool (contains_all Z.eqb l src), lval l))) [[]; [5]; [11; 22]; [33; 7]; [22; 11; 33]]) lists.
+
 (* the functions that C13 rests on as well *)
 Definition sweeps_seq : list disagreement :=
   sweep_iterator_GetNext ++ sweep_iterator_HasNext ++ sweep_iteratorClass_MakeFromArray ++
@@ -200,7 +220,7 @@ Definition sweeps_seq : list disagreement :=
 Definition sweeps_C01 : list disagreement :=
   sweeps_seq ++ sweep_array_GetValues ++ sweep_array_SetValues ++ sweep_list_GetValues ++ sweep_list_SetValue ++
   sweep_list_SetValues ++ sweep_list_InsertValues ++ sweep_list_AppendValue ++ sweep_list_AppendValues ++
-  sweep_list_RemoveValues.
+  sweep_list_RemoveValues ++ sweep_list_GetIndex ++ sweep_list_ContainsValue ++ sweep_list_ContainsAny ++ sweep_list_ContainsAll.
 
 (* ---------- C13: collection/stack.go ---------- *)
 Definition sval (cap : nat) (l : list Z) : val Z := stk_val VNil VNil (Z.of_nat cap) l.
@@ -259,6 +279,43 @@ Definition sweep_set_ContainsValue := flat_map (fun rk => flat_map (fun l => fla
 Definition sweep_set_GetIndex := flat_map (fun rk => flat_map (fun l => flat_map (fun x =>
   cmpx (rank_ext rk) id_GetIndex (setv l) [VElem x]
        (of_out (setv l) (fun k => ORet (VInt (Z.of_nat k), setv l)) (set_get_index 0 rk l x))) probes) lists) rankers.
+Definition sweep_set_AddValues := flat_map (fun rk => flat_map (fun l => flat_map (fun src =>
+  cmpx (rank_ext rk) id_AddValues (setv l) [aval src]
+       (of_out (setv l) (fun l' => ret_unit (setv l')) (set_add_all 0 rk l src))) [[]; [5]; [22; 5; 22]; [60; 40; 16; 11]]) lists) rankers.
+Definition sweep_set_RemoveValues := flat_map (fun rk => flat_map (fun l => flat_map (fun src =>
+  cmpx (rank_ext rk) id_RemoveValues (setv l) [aval src]
+       (of_out (setv l) (fun l' => ret_unit (setv l')) (set_remove_all 0 rk l src))) [[]; [5]; [22; 5; 22]; [55; 33; 16; 11]]) lists) rankers.
+Definition sweep_set_RemoveAll := flat_map (fun l => cmpx (rank_ext Z.compare) id_RemoveAll (setv l) [] (ret_unit (setv []))) lists.
 Definition sweeps_C02 : list disagreement :=
+  sweep_set_AddValues ++ sweep_set_RemoveValues ++ sweep_set_RemoveAll ++
   sweep_set_findIndex ++ sweep_set_AddValue ++ sweep_set_RemoveValue ++ sweep_set_ContainsValue ++ sweep_set_GetIndex ++
   sweeps_seq.
+
+(* ---------- C09: agent/sorter.go (merge sort and reversal in place in the caller's slice) ---------- *)
+Definition perms4 : list (list Z) :=
+  [[]; [5]; [5; 3]; [3; 5]; [2; 2]; [3; 1; 2]; [1; 2; 3]; [3; 2; 1]; [2; 3; 1; 2]; [4; 3; 2; 1]; [1; 3; 2; 4; 0];
+   [5; 1; 4; 2; 3; 0]; [7; 6; 5; 4; 3; 2; 1]; [1; 1; 2; 1; 2; 2; 1; 3]; [9; 8; 7; 6; 5; 4; 3; 2; 1]] ++
+  (* lengths at which a pass has a trailing run without a partner (11, 12, 23), reversed and rotated *)
+  map (fun n => rev (map Z.of_nat (seq 1 n))) [11; 12; 23]%nat ++
+  map (fun n => map Z.of_nat (seq 4 n ++ seq 1 3)) [11; 21]%nat.
+Definition srtv : val Z := srt_val VNil.
+Definition wb1 (l : list Z) : val Z := VWb srtv [(1%nat, VSlice (elems l))].
+Definition sweep_sorter_SortValues := flat_map (fun rk => flat_map (fun l =>
+  cmpx (rank_ext rk) id_SortValues srtv [VSlice (elems l)] (ORet (VTuple [], wb1 (Sorter.sort_values rk l)))) perms4) rankers.
+Definition sweep_sorter_ReverseValues := flat_map (fun l =>
+  cmpx (rank_ext Z.compare) id_ReverseValues srtv [VSlice (elems l)] (ORet (VTuple [], wb1 (Sorter.reverse_values l)))) perms4.
+Definition sweep_sorter_mergeArrays := flat_map (fun rk => flat_map (fun l => flat_map (fun r =>
+  cmpx (rank_ext rk) id_mergeArrays srtv [VSlice (elems l); VSlice (elems r); VSlice (elems (repeat 0 (length l + length r)))]
+       (ORet (VTuple [], VWb srtv [(3%nat, VSlice (elems (Sorter.merge rk (length l + length r) l r)))])))
+       [[]; [2]; [1; 3]; [2; 2; 5]]) [[]; [2]; [1; 4]; [0; 2; 6]]) rankers.
+Definition sweep_array_SortValues := flat_map (fun l =>
+  cmpx (rank_ext Z.compare) id_SortValues (aval l) [] (ORet (VTuple [], aval (Sorter.sort_values Z.compare l)))) perms4.
+Definition sweep_list_SortValues := flat_map (fun l =>
+  cmpx (rank_ext Z.compare) id_SortValues (lval l) [] (ORet (VTuple [], lval (Sorter.sort_values Z.compare l)))) perms4.
+Definition sweep_array_ReverseValues := flat_map (fun l =>
+  cmpx (rank_ext Z.compare) id_ReverseValues (aval l) [] (ORet (VTuple [], aval (Sorter.reverse_values l)))) perms4.
+Definition sweep_list_ReverseValues := flat_map (fun l =>
+  cmpx (rank_ext Z.compare) id_ReverseValues (lval l) [] (ORet (VTuple [], lval (Sorter.reverse_values l)))) perms4.
+Definition sweeps_C09 : list disagreement :=
+  sweep_sorter_SortValues ++ sweep_sorter_ReverseValues ++ sweep_sorter_mergeArrays ++ sweep_array_SortValues ++
+  sweep_list_SortValues ++ sweep_array_ReverseValues ++ sweep_list_ReverseValues.
